@@ -261,7 +261,7 @@ fn main() {
                 // payload seen by the lexer = intended text
                 // spans are byte offsets into the source (after the fix of D12)
                 let n = lit.len();
-                let want_lex = format!("StringLit:{}/0/{} Eof/{}/{} |", hex_str(s), n, n, n + 1);
+                let want_lex = format!("StringLit:{}/0/{} Eof/{}/{} |", hex_str(s), n, n, n);
                 if o.lex != want_lex {
                     ctx.spec_fail(format!("string literal {lit:?} ({style}): lexer gives `{}`, intended text {s:?} i.e. `{want_lex}`", o.lex));
                 }
